@@ -73,6 +73,13 @@ def cases(draw, tier="quick"):
     return cfg
 
 
+FUZZ = {"thorough": {"runs": 3000, "children": 4, "wall": 1500}}
+
+
+def fuzz_cases():
+    return cases("thorough")
+
+
 def build(case):
     th = copy.deepcopy(case["theory"])
     ob = copy.deepcopy(case["obs"])
